@@ -49,10 +49,20 @@ pub fn dispatch(id: &str, tier: Tier, seed: u64, sub: Option<&str>) -> i32 {
             if s.starts_with("child:") {
                 return c18::child(s);
             }
+            #[cfg(feature = "plonk-std")]
+            if s == "sanitizer" {
+                return c18::sanitizer_workload(seed);
+            }
         }
         return c18::run(tier, seed);
     }
     if id == "C19" {
+        if sub == Some("sanitizer") {
+            return c19::sanitizer_workload(seed);
+        }
+        if sub == Some("miri") {
+            return c19::miri_workload(seed);
+        }
         return c19::run(tier, seed);
     }
     #[cfg(feature = "plonk-std")]
